@@ -300,6 +300,7 @@ reg(Check("C13", "model_checking",
                  Part("acc-reply", SRV, "^TestVerifC13AccReply$", instr=True, shards=(16, 16)),
                  Part("at-load", SRV, "^TestVerifC13AtLoad$", instr=True, shards=(16, 16), deadline=(300, 1200)),
                  Part("pb-client", SRV, "^TestVerifC13PbClient$", instr=True),
+                 Part("at-end", SRV, "^TestVerifC13AtEnd$", instr=True, shards=(16, 16), deadline=(300, 1200)),
                  Part("drafty", "server/drafty", "^TestVerifC13Drafty$", shards=(16, 16), deadline=(300, 2400))]))
 
 MSG_RULE = ("BFS over histories of {pub by 4 users (one with forged sender header + noecho), soft/hard delete with 6 (quick) / 11 (thorough) "
@@ -369,7 +370,8 @@ reg(Check("C14", "model_checking",
           engine="E1 detsched", claimed=True,
           parts=[Part("races", SRV, "^TestVerifC14Races$", instr=True, shards=(16, 16), deadline=(300, 3000)),
                  Part("acl", SRV, "^TestVerifC14Acl$", instr=True, gomaxprocs=16, deadline=(300, 2400)),
-                 Part("acl-fault", SRV, "^TestVerifC14AclFault$", instr=True, gomaxprocs=16, deadline=(300, 2400))]))
+                 Part("acl-fault", SRV, "^TestVerifC14AclFault$", instr=True, gomaxprocs=16, deadline=(300, 2400)),
+                 Part("at-end", SRV, "^TestVerifC14AtEnd$", instr=True, shards=(16, 16), deadline=(300, 1200))]))
 
 reg(Check("C10", "model_checking",
           "pres: BFS to depth 4 (quick) / 6 (thorough) over 20 operations (two users a, b with a p2p topic and a shared group, a stranger c; a has "
